@@ -153,6 +153,31 @@ let op_rd args = match args with
   | [t; input] -> read_into (parse_shape t) (unhex input)
   | _ -> "bad-args"
 
+(* rw <template> <input>: read, write what was read, compare with the input; the Coq predicate [tight]
+   (Canon.v) must say exactly when they are equal (C18_inv_msg.write_read) *)
+let op_rw args = match args with
+  | [t; input] ->
+    let tm = parse_shape t and inp = unhex input in
+    let p = prof () in
+    let total = List.length inp in
+    (match read p tm inp with
+     | ROk (m, rest, _) ->
+       let b = Buffer.create 64 in dump b m;
+       let consumed = total - List.length rest in
+       let ls = match mlength p m with Some n -> string_of_n n | None -> "panic" in
+       (match write p m with
+        | None -> Printf.sprintf "ok consumed=%d val=%s len=%s w=panic" consumed (Buffer.contents b) ls
+        | Some w ->
+          let same = (w @ rest = inp) in
+          let note = if tmpl_ok tm && all_bytes inp && (tight p tm inp <> same) then " TIGHT-MISMATCH" else "" in
+          let note2 = if int_of_n (slack p tm inp) + List.length w <> consumed then " SLACK-MISMATCH" else "" in
+          Printf.sprintf "ok consumed=%d val=%s len=%s w=%s same=%d%s%s" consumed (Buffer.contents b) ls (hex w)
+            (if same then 1 else 0) note note2)
+     | RErr (e, rest, _) -> Printf.sprintf "err:%s consumed=%d" (err_name e) (total - List.length rest)
+     | RPanic -> "panic"
+     | RSpin -> "spin")
+  | _ -> "bad-args"
+
 (* ---- PER ---- *)
 let show_rd (show : 'a -> Stdlib.String.t) (o : ('a * n list) outcome) : Stdlib.String.t = match o with
   | Ok (v, rest) -> Printf.sprintf "ok:%s:rest=%d" (show v) (List.length rest)
@@ -168,9 +193,56 @@ let show_n = string_of_n
 let show_bool b = if b then "true" else "false"
 let show_unit () = "-"
 
+(* decode, then encode.  [canon] = the Coq predicate that must say exactly when the bytes come back
+   (C18_inv_per); [refdec] = the reference decoder's answer, which the reader must share wherever the
+   reference accepts *)
+let dw (input : n list) (r : ('a * n list) outcome) (show : 'a -> Stdlib.String.t)
+       (w : 'a -> n list outcome) (canon : bool option) (refdec : ('a * n list) option) : Stdlib.String.t =
+  match r with
+  | Err e -> (match refdec with Some _ -> "r=err:" ^ err_name e ^ " REFDEC-ACCEPTS" | None -> "r=err:" ^ err_name e)
+  | Panic -> "r=panic" | Spin -> "r=spin"
+  | Ok (v, rest) ->
+    let head = Printf.sprintf "r=ok:%s:rest=%d" (show v) (List.length rest) in
+    let refnote = match refdec with Some (v', rest') when (v', rest') <> (v, rest) -> " REFDEC-MISMATCH" | _ -> "" in
+    (match w v with
+     | Err e -> Printf.sprintf "%s w=err:%s%s%s" head (err_name e) refnote
+                  (match canon with Some true -> " CANON-MISMATCH" | _ -> "")
+     | Panic -> head ^ " w=panic" ^ refnote | Spin -> head ^ " w=spin"
+     | Ok b ->
+       let same = (b @ rest = input) in
+       let note = match canon with Some c when c <> same -> " CANON-MISMATCH" | _ -> "" in
+       Printf.sprintf "%s w=%s same=%d%s%s" head (hex b) (if same then 1 else 0) note refnote)
+
 let op_per args =
   let p = prof () in
   match args with
+  | ["dwlen"; h] -> let i = unhex h in
+    dw i (per_read_length i) show_n (fun v -> Ok (per_write_length v)) (Some (canon_length i)) (ref_dec_length i)
+  | ["dwint"; h] -> let i = unhex h in
+    dw i (per_read_integer i) show_n (fun v -> Ok (per_write_integer v)) (Some (canon_integer i)) (ref_dec_integer i)
+  | ["dwint16"; m; h] -> let i = unhex h in
+    dw i (per_read_integer_16 (num m) i) show_n (fun v -> per_write_integer_16 p v (num m)) (Some true) (ref_dec_integer_16 (num m) i)
+  | ["dwoid"; o; h] -> let i = unhex h and oid = unhex o in
+    (* the reader only answers a comparison; the reference decodes the arcs: inside the codec's domain they must agree *)
+    let r = per_read_object_identifier oid i in
+    let refd = match ref_dec_oid i with
+      | Some (arcs, rest) when List.length arcs = 6 && List.length oid = 6 &&
+                               (match per_write_object_identifier arcs with Ok _ -> true | _ -> false) -> Some (arcs = oid, rest)
+      | _ -> None in
+    let canon = match r with Ok (true, _) -> Some (canon_oid i) | _ -> None in
+    dw i r show_bool (fun v -> if v then per_write_object_identifier oid else Ok []) canon refd
+  | ["dwoct"; s; m; h] -> let i = unhex h and st = unhex s in
+    let refd = match ref_dec_octet_string (num m) i with Some (s', rest) when s' = st -> Some ((), rest) | _ -> None in
+    dw i (per_read_octet_stream p st (num m) i) show_unit (fun () -> Ok (per_write_octet_stream st (num m))) (Some (canon_length i)) refd
+  | ["dwnum"; m; h] -> let i = unhex h in
+    dw i (per_read_numeric_string p (num m) i) hex (fun v -> per_write_numeric_string p v (num m)) (Some (canon_numeric (num m) i))
+      (ref_dec_numeric_string (num m) i)
+  | ["dwpad"; n; h] -> let i = unhex h in
+    dw i (per_read_padding (num n) i) show_unit (fun () -> per_write_padding (num n)) (Some (canon_padding (num n) i)) None
+  | ["dwchoice"; h] -> let i = unhex h in dw i (per_read_choice i) show_n (fun v -> Ok (per_write_choice v)) (Some true) None
+  | ["dwsel"; h] -> let i = unhex h in dw i (per_read_selection i) show_n (fun v -> Ok (per_write_selection v)) (Some true) None
+  | ["dwnset"; h] -> let i = unhex h in dw i (per_read_number_of_set i) show_n (fun v -> Ok (per_write_number_of_set v)) (Some true) None
+  | ["dwenum"; h] -> let i = unhex h in dw i (per_read_enumerates i) show_n (fun v -> Ok [per_write_enumerates v]) (Some true) None
   | ["wlen"; n] -> fst (show_wr (Ok (per_write_length (num n))))
   | ["rlen"; h] -> show_rd show_n (per_read_length (unhex h))
   | ["rtlen"; n] -> rt (show_wr (Ok (per_write_length (num n)))) (fun b -> show_rd show_n (per_read_length b))
@@ -259,12 +331,26 @@ let op_der args = match args with
     let r = show_dec (der_decode_all (snd (parse_dval t)) bytes) in
     Printf.sprintf "w=%s der=%s ber=%s" (hex bytes) r r
   | ["dec"; t; h] | ["decber"; t; h] -> show_dec (der_decode_all (snd (parse_dval t)) (unhex h))
+  | ["dw"; t; h] ->
+    (* the strict decoder accepts only the encoder's output (C18_inv_der.der_decode_all_inverse) *)
+    let i = unhex h in
+    (match der_decode_all (snd (parse_dval t)) i with
+     | Some v -> let w = der_encode v in
+       Printf.sprintf "%s w=%s same=%d%s" (show_dec (Some v)) (hex w) (if w = i then 1 else 0) (if w = i then "" else " DER-NOT-CANONICAL")
+     | None -> "err:Asn1")
   | op :: _ -> "unknown-der:" ^ op
   | [] -> "bad-args"
 
 let op_mcs args = match args with
   | ["ci"; ud] -> "ok:" ^ hex (der_encode (connect_initial (unhex ud)))
   | ["cr"; h] -> show_dec (der_decode_all connect_response_sch (unhex h))
+  | ["crdw"; h] ->
+    (* the lenient reader (BerYasna.v) gives the user data; what it read re-encodes to the input iff the strict
+       decoder accepts the input (C18_inv_der.der_reencode_iff_strict) *)
+    let i = unhex h in
+    (match ber_connect_response (prof ()) i with
+     | Ok ud -> Printf.sprintf "ok:ud=%s same=%d" (hex ud) (match der_decode_all connect_response_sch i with Some _ -> 1 | None -> 0)
+     | Err e -> "err:" ^ err_name e | Panic -> "panic" | Spin -> "spin")
   | ["crt"; ud] -> let b = der_encode (connect_response (unhex ud)) in
     Printf.sprintf "w=%s r=%s" (hex b) (show_dec (der_decode_all connect_response_sch b))
   | op :: _ -> "unknown-mcs:" ^ op
@@ -299,8 +385,8 @@ let op_gcc args =
   | ["req"; ud] -> show_out (gcc_write_conference_create_request p (unhex ud))
   | ["resp"; h] ->
     (match gcc_read_conference_create_response p (unhex h) with
-     | Ok (ids, v) ->
-       Printf.sprintf "ok:ids=%s:ver=%s" (if ids = [] then "-" else String.concat "." (List.map string_of_n ids)) (version_name v)
+     | Ok ((io, ids), v) ->
+       Printf.sprintf "ok:io=%s:ids=%s:ver=%s" (string_of_n io) (if ids = [] then "-" else String.concat "." (List.map string_of_n ids)) (version_name v)
      | Err e -> "err:" ^ err_name e | Panic -> "panic" | Spin -> "spin")
   | ["ver"; n] -> "ok:" ^ version_name (version_from (num n))
   | ["hdr"; t; l] ->
@@ -335,6 +421,7 @@ let () = main_loop (fun op args ->
   try match op with
     | "msg" -> op_msg args
     | "rd" -> op_rd args
+    | "rw" -> op_rw args
     | "per" -> op_per args
     | "der" -> op_der args
     | "mcs" -> op_mcs args
